@@ -158,7 +158,7 @@ fn parse_rect4(s: &str) -> Rectangle {
     let v: Vec<i64> = s.split(',').map(|t| t.parse().expect("bad rect")).collect();
     Rectangle::new(Point::new(v[0] as i32, v[1] as i32), Size::new(v[2] as u32, v[3] as u32))
 }
-fn parse_stack(s: &str) -> Vec<Ad> {
+pub(crate) fn parse_stack(s: &str) -> Vec<Ad> {
     if s == "-" {
         return vec![];
     }
